@@ -21,7 +21,7 @@ from ..session_replay import SessionReplayer
 
 LEVEL = "fault_enumeration"
 VAC = ["EnterTempParamsAmp", "EnterTempParamsVM", "EnterMask", "EnterTempUsedRes", "EnterGlsOne", "EnterTempConfig", "EnterTempVar", "InnerSetParam",
-       "StartPartialWeight", "StartInterference", "StartFitFractions", "StartFactorIteration", "CompStep", "ExitNormal", "Raise", "Abandon"]
+       "StartPartialWeight", "StartInterference", "StartFitFractions", "StartFactorIteration", "StartPlotWeights", "CompStep", "ExitNormal", "Raise", "Abandon"]
 
 
 def bfs_paths(nodes, edges, inits):
